@@ -280,13 +280,10 @@ func c03Crosser(c *core.Ctx, all []s2.Point) {
 	}
 	c.ParallelFor(len(abs), func(k int) {
 		a, b := pts[abs[k].a], pts[abs[k].b]
-		type stKey struct {
-			c   s2.Point
-			acb s2.Direction
-			has bool
-		}
-		// BFS; a state is represented by the shortest op history reaching it
-		seen := map[stKey]bool{{}: true}
+		// BFS; a state is represented by the shortest op history reaching it.  States are merged on
+		// every field of the crosser (reflective dump, so a field added to the implementation is part
+		// of the key without anybody having to remember it) plus the harness' own chain position.
+		seen := map[string]bool{"": true}
 		frontier := [][]c03Op{nil}
 		var states, trans int64 = 1, 0
 		for len(frontier) > 0 {
@@ -327,8 +324,7 @@ func c03Crosser(c *core.Ctx, all []s2.Point) {
 						c.Violate("crosser-bfs", "wrong-answer", bad, []int{k, len(hist), oi}, map[string]any{"a": ptStr(a), "b": ptStr(b), "history": hs, "points": ptsStr(pts)})
 						continue
 					}
-					cc, acb := e.VerifCrosserState()
-					key := stKey{cc, acb, true}
+					key := deepKey(e, prev)
 					if !seen[key] {
 						seen[key] = true
 						states++
